@@ -350,6 +350,9 @@ func (e *SpecEnv) call(n *SCall) Val {
 		r := e.Eval(n.Args[0])
 		sk, _ := x.readerKeys()
 		return Val{T: "(select " + x.getHeap(e.st, sk) + " " + r.T + ")", S: x.bytesSort(), Ty: bytesT()}
+	case "bigOf":
+		r := e.Eval(n.Args[0])
+		return Val{T: "(select " + x.getHeap(e.st, x.bigKey()) + " " + r.T + ")", S: "Int"}
 	case "nsent":
 		c := e.Eval(n.Args[0])
 		x.u.regHeap("chan.nsent", "(Array Int Int)")
